@@ -54,12 +54,12 @@ func splitTop(s string) []string {
 	return append(out, s[start:])
 }
 
-func eAdd(xs ...string) string  { return eNary("add", xs...) }
-func eMul(xs ...string) string  { return eNary("mul", xs...) }
-func eSub(a, b string) string   { return "sub(" + a + "," + b + ")" }
-func eDiv(a, b string) string   { return "div(" + a + "," + b + ")" }
-func eCall(f, a string) string  { return f + "(" + a + ")" }
-func eNum(f float64) string     { return strconv.FormatFloat(f, 'g', -1, 64) }
+func eAdd(xs ...string) string { return eNary("add", xs...) }
+func eMul(xs ...string) string { return eNary("mul", xs...) }
+func eSub(a, b string) string  { return "sub(" + a + "," + b + ")" }
+func eDiv(a, b string) string  { return "div(" + a + "," + b + ")" }
+func eCall(f, a string) string { return f + "(" + a + ")" }
+func eNum(f float64) string    { return strconv.FormatFloat(f, 'g', -1, 64) }
 
 // S prints the normal form of v.
 func (e *Expr) S(v ssa.Value) string {
